@@ -124,6 +124,7 @@ Inductive ob :=
 | OSameFileErr (p q : path)
 | OOpenRW (p : path)
 | OTruncate (n : nat)
+| OModelSave
 | OFail (cleanup : bool).   (* an injected OSError; cleanup = the failed call was os.remove/os.rmdir of the finally *)
 
 Inductive act :=
@@ -159,7 +160,9 @@ Inductive act :=
 | AReleaseHeld (t : nat)      (* ExternalTensor.release() while the caller holds a live array from tensor.numpy():
                                   mmap.close() raises BufferError (reported as OtherError), the map stays open *)
 | AOpenRW (p : path)           (* open(p, "r+b"): a worker's own handle on the preallocated temporary file *)
-| ATruncate (n : nat).         (* file.truncate(n) on the open handle: preallocation, the gap reads as zeros *)
+| ATruncate (n : nat)          (* file.truncate(n) on the open handle: preallocation, the gap reads as zeros *)
+| ASaveModel.                 (* _io.save: onnx.save(proto, path) - the MODEL file, written after the data file(s);
+                                  the model file itself is not part of the modelled directory *)
 
 Definition counted (a : act) : bool :=
   match a with
@@ -170,7 +173,7 @@ Definition counted (a : act) : bool :=
 Definition faultable (a : act) : bool :=
   match a with
   | AMkdtemp _ | AOpenW _ | AWrite _ | AWriteBuf | AClose | ACopymode _ _ | AReplace _ _
-  | ARemove _ | ARmdir _ | AOpenRW _ | ATruncate _ => true
+  | ARemove _ | ARmdir _ | AOpenRW _ | ATruncate _ | ASaveModel => true
   | _ => false
   end.
 
@@ -324,6 +327,7 @@ Definition sem (a : act) (s : st) : st * res unit :=
           | _ => (log (OTruncate n) s, Raise OSError)
           end
       end
+  | ASaveModel => (log OModelSave s, Ok tt)
   end.
 
 (* Exception kinds.  The shared enum (Base/Exn.v) reports everything outside the listed Exception classes
@@ -561,6 +565,12 @@ Definition run (c : ctl) (fs : fsT) (tens : list tstate) (small : list nat) (sc 
 Definition run_sharded (c : ctl) (fs : fsT) (tens : list tstate) (small : list nat) (shards : list scn)
   : st * sig := exec c (plan_sharded fs tens small shards) (init fs tens).
 
+(* ir.save as the entry point: the data file(s), then the model file *)
+Definition run_io (c : ctl) (fs : fsT) (tens : list tstate) (small : list nat) (sc : scn) : st * sig :=
+  exec c (PSeq (plan_save fs tens small sc) (PActs [ASaveModel])) (init fs tens).
+Definition run_sharded_io (c : ctl) (fs : fsT) (tens : list tstate) (small : list nat) (shards : list scn)
+  : st * sig := exec c (PSeq (plan_sharded fs tens small shards) (PActs [ASaveModel])) (init fs tens).
+
 Definition no_ctl : ctl := {| crash_at := None; fault_at := None |}.
 Definition run_prefix (k : nat) := run {| crash_at := Some k; fault_at := None |}.
 Definition run_with_fault (k : nat) := run {| crash_at := None; fault_at := Some k |}.
@@ -617,6 +627,7 @@ Definition ob_eqb (a b : ob) : bool :=
   | OSameFileErr p q, OSameFileErr p' q' => path_eqb p p' && path_eqb q q'
   | OOpenRW p, OOpenRW p' => path_eqb p p'
   | OTruncate n, OTruncate n' => Nat.eqb n n'
+  | OModelSave, OModelSave => true
   | OFail a1, OFail a2 => Bool.eqb a1 a2
   | _, _ => false
   end.
